@@ -506,6 +506,7 @@ func checkC05(c *Ctx) {
 	c.Assume("fewer than 2^64 frames per direction (the counter wraps; hc and the HAP specification share this limit)")
 
 	c05Alias(c)
+	c05Inject(c)
 	scs := c05Scenarios(c)
 	const block = 2000
 	counterAccess := true
